@@ -247,7 +247,9 @@ pub fn generate(g: &mut Gen, thorough: bool) {
     // unknown names give errors, in every context: names that only begin like a known one
     for kind in ["default", "plain", "new", "plain-new"] {
         for name in ["stupid:way:nonexistent", "stupid:addone:v2", "stupid::way", "stupid:wa", "stupid:way_", "geo:in:out", "geo:", ":in", "nosuch:macro", "addon", "addonee",
-            "stupid:way.v2", "stupid.v2:way_too", "stupid.md:way_too", "stupid:way.resource", "stupid.old:way", "nkg.x:etrs89"] {
+            "stupid:way.v2", "stupid.v2:way_too", "stupid.md:way_too", "stupid:way.resource", "stupid.old:way", "nkg.x:etrs89",
+            // (names are matched letter for letter: another letter case is another name)
+            "Addone", "ADDONE", "Noop", "Cart", "UTM zone=32", "Helmert x=1", "Geo:in", "GEO:IN", "Stupid:way"] {
             g.push(format!("S_C18U\t{kind}\t{}", crate::wire::escape(name)), "oracle-unknown-names", true);
             g.push(format!("HIST\t{kind}\tO|{}\tO|addone %7c {} %7c addone", esc(name), esc(name)).replace("%7c", "\\u{7c}"), "hist-unknown-names", true);
         }
